@@ -41,7 +41,7 @@ def gen_sequence(rng, small, nreq):
         beh = rng.choice(["/n200", "/n200", "/n201", "/n301", "/n404", "/n500", "/e204", "/d", "/zz"])
         if rng.random() < 0.06:
             # a response whose body file is shorter than declared / missing: it fails after its head went out
-            beh = rng.choice(["/fs0", "/fs3", "/fs9", "/fm", "/fs10"])
+            beh = rng.choice(["/fs0", "/fs3", "/fs9", "/fm", "/fs10", "/fl1", "/fl12"])
         seed = rng.randint(1, 10**6)
         if r < 0.35:
             toks += req("GET", beh)
@@ -99,7 +99,8 @@ def gen(rng, tier):
             seq = "+".join(req("GET", "/n200")) * 1 + "+" + "+".join(req("GET", "/n201", headers=[("X-Pad", "q" * pad)])) + "+" + "+".join(req("GET", "/n200"))
         cases.append("D %d ok %s" % (small if kind != 1 else 5000, seq))
     # responses whose body source fails after the head was sent: alone, after earlier answers, with pipelined followers
-    for beh in ("/fs0", "/fs3", "/fs9", "/fm", "/fs10"):
+    # ... and whose file is LONGER than declared (/fl<k>): exactly the declared bytes go out, the connection carries on
+    for beh in ("/fs0", "/fs3", "/fs9", "/fm", "/fs10", "/fl1", "/fl12", "/fl70000"):
         for pre in (0, 1, 3):
             for post in (0, 2):
                 seq = "+".join(["+".join(req("GET", "/n200")) for _ in range(pre)] + ["+".join(req("GET", beh))] +
